@@ -146,6 +146,17 @@ func init() {
 			job(sc(sim.BoundaryNodesCfg("c01-boundary-34-nodes", 1, fMove|fRel|fVal|fBExch, oBasic).P("C01")), pick(tier, 2, 3), 1),
 			job(sc(sim.BoundaryEntitiesCfg("c01-boundary-64-entities-cap1", 62, 4, 1, fRet|fMove|fBNew|fVal, oBasic).P("C01")), pick(tier, 3, 4), 0.5),
 			job(sc(sim.BoundaryEntitiesCfg("c01-boundary-128-entities", 124, 4, 128, fRet|fMove|fBNew|fVal, oBasic).P("C01")), pick(tier, 3, 4), 0.5),
+			// a relation capacity increment that differs from the capacity increment of plain tables
+			job(sc(func() *sim.Cfg {
+				c := sim.RelCfg("c01-rel-k4-relcap1-cap8-storage", 0, 4, 0, 8, fBld|fMove|fRet|fVal|fBSet, oBasic)
+				c.RelCapInc = 1
+				return c.P("C01")
+			}()), pick(tier, 4, 6), 1),
+			job(sc(func() *sim.Cfg {
+				c := sim.RelCfg("c01-rel-k4-relcap3-cap1-storage", 0, 4, 0, 1, fBld|fMove|fRet|fVal|fBNew, oBasic)
+				c.RelCapInc = 3
+				return c.P("C01")
+			}()), pick(tier, 4, 6), 1),
 			// values as seen from inside a listener: when an event is delivered the components hold what the operation wrote
 			job(sc(func() *sim.Cfg {
 				c := sim.RelCfg("c01-rel-k3-values-seen-by-listener", 0, 3, 0, 8, fBld|fVal|fMove|fRet|fBNew, oBasic|sim.OEvents)
@@ -274,6 +285,11 @@ func init() {
 			job(sc(sim.RelCfg("c06-rel-k4-any-reg-reset", 0, 4, 0, 8, fBld|fReg|fReset|fRet, oBasic).P("C06")), pick(tier, 6, 8), 2),
 			job(sc(sim.RichRelCfg("c06-rich-two-nodes", 2, true, fMove|fRet|fBRem|fReset, oBasic).P("C06")), pick(tier, 4, 5), 2),
 			job(sc(sim.RichOrphanCfg("c06-rich-orphan", 3, false, fMove|fRet, oBasic).P("C06")), pick(tier, 4, 6), 2),
+			job(sc(func() *sim.Cfg {
+				c := sim.RelCfg("c06-rel-k4-relcap1-reuse-values", 0, 4, 0, 4, fBld|fRet|fVal|fBNew, oBasic)
+				c.RelCapInc = 1
+				return c.P("C06")
+			}()), pick(tier, 5, 7), 1),
 		}
 		if tier == "thorough" {
 			js = append(js, featurePairs("C06", "c06-k4", fBld, 4, 8, nil)...)
